@@ -164,6 +164,7 @@ func c11Run(r *vcore.Run, c c11Case) {
 		method := "GET"
 		var bodyClosed int32
 		var req *http.Request
+		var extraBodies []*int32
 		payload := []byte("payload")
 		switch ev.Body {
 		case "none":
@@ -174,7 +175,12 @@ func c11Run(r *vcore.Run, c c11Case) {
 			req.Body = trackedBody{bytes.NewReader(payload), &bodyClosed}
 			req.ContentLength = int64(len(payload))
 			if ev.Body == "getbody" {
-				req.GetBody = func() (io.ReadCloser, error) { return trackedBody{bytes.NewReader(payload), &bodyClosed}, nil }
+				// every body GetBody hands out is a body of its own: each must be closed by whoever asked for it
+				req.GetBody = func() (io.ReadCloser, error) {
+					c := new(int32)
+					extraBodies = append(extraBodies, c)
+					return trackedBody{bytes.NewReader(payload), c}, nil
+				}
 			}
 		}
 		req.Header.Set("X-Demand", ev.Required)
@@ -201,6 +207,12 @@ func c11Run(r *vcore.Run, c c11Case) {
 		// (f) the body is closed on every path
 		if ev.Body != "none" && atomic.LoadInt32(&bodyClosed) == 0 {
 			viol("request-body-not-closed/"+c11Outcome(resp, err), "Close called on the request body", fmt.Sprintf("never closed (resp=%v err=%v)", resp != nil, err))
+		}
+		for k, c := range extraBodies {
+			if atomic.LoadInt32(c) == 0 {
+				viol("body-from-GetBody-not-closed/"+c11Outcome(resp, err), "every body obtained from GetBody is closed", fmt.Sprintf("body %d of %d never closed", k+1, len(extraBodies)))
+				break
+			}
 		}
 		// (d) bounded attempts, and 401 after a fresh token surfaces as 403 DENIED
 		regTrips, tokenReqs := 0, 0
